@@ -37,6 +37,8 @@ def load_cxx(prefix, nshards):
         for line in open('%s.%d.brk' % (prefix, i)):
             if line[0] == 'Z':
                 cur = tabs.setdefault(line.split()[1], [])
+            elif line[0] == 'O':
+                cur.append('over-capacity')
             else:
                 _, s, o, d, a = line.split()
                 cur.append((int(s), int(o), int(d), '' if a == '""' else a))
